@@ -660,6 +660,46 @@ def part_env(sh, res):
                 res.violation('cli-output-differs', {'entry_point': 'cli_inprocess', 'option': label, 'argv': argv}, {'exit': 0, 'records': want_recs}, {'exit': rc_, 'records': recs, 'stdout': out_text[:200], 'stderr': errtext[:300]})
             else:
                 res.nontrivial += 1
+        # stderr on a terminal (the usual `rbql --query ... > out.csv` at a shell prompt): warnings and errors still go to stderr, stdout holds nothing but the table
+        import pty, select
+        def cli_with_tty_stderr(argv):
+            master, slave = pty.openpty()
+            env_ = dict(os.environ)
+            env_['PYTHONWARNINGS'] = 'ignore'
+            env_.pop('PYTHONPATH', None)
+            p_ = subprocess.Popen([sys.executable, '-m', 'rbql'] + argv, stdin=subprocess.DEVNULL, stdout=subprocess.PIPE, stderr=slave, cwd=tree.PY_ROOT, env=env_)
+            os.close(slave)
+            out_ = p_.stdout.read()
+            p_.wait(timeout=60)
+            err_ = b''
+            while True:
+                r_, _, _ = select.select([master], [], [], 0.2)
+                if not r_:
+                    break
+                try:
+                    chunk = os.read(master, 4096)
+                except OSError:
+                    break
+                if not chunk:
+                    break
+                err_ += chunk
+            os.close(master)
+            return p_.returncode, out_.decode('utf-8', 'replace'), err_.decode('utf-8', 'replace').replace('\r\n', '\n')
+        pr = os.path.join(data, 'ragged.csv')
+        with open(pr, 'w', newline='') as f:
+            f.write('k,v1\nm\n')
+        for label, argv, want_rc, want_out, want_err in (
+                ('warning_with_tty_stderr', ['--query', 'select a1', '--delim', ',', '--input', pr], 0, 'k\nm\n', 'Warning: '),
+                ('error_with_tty_stderr', ['--query', 'select int(a1)', '--delim', ',', '--input', pr], 1, '', 'Error [query execution]'),
+                ('parse_error_with_tty_stderr', ['--query', 'select a1 where a1 = 1', '--delim', ',', '--input', pr], 1, '', 'Error [query parsing]')):
+            rc_, out_text, errtext = cli_with_tty_stderr(argv)
+            res.evaluations += 1
+            res.traces += 1
+            res.feat('ep_cli_tty_stderr')
+            if (rc_ == 0) != (want_rc == 0) or out_text != want_out or not errtext.lstrip().startswith(want_err):
+                res.violation('cli-stderr-convention', {'entry_point': 'cli_subprocess', 'stderr': 'a terminal (pty)', 'case': label, 'argv': argv}, {'exit': want_rc, 'stdout': want_out, 'stderr_starts_with': want_err}, {'exit': rc_, 'stdout': out_text[:200], 'stderr': errtext[:300]})
+            else:
+                res.nontrivial += 1
         # the default init file: functions defined in ~/.rbql_init_source.py are available to CSV queries (library and command line)
         code = "def tag(x):\n    return 'T:' + x\nSUFFIX = '!'\n"
         with open(os.path.join(home, '.rbql_init_source.py'), 'w') as f:
@@ -822,7 +862,7 @@ def main(tier, seed):
              'the CLI in-process under 6 configurations x {file, stdin->stdout} with special-cell tables for explicit policies, the `rbql sqlite` command line in-process (--out-format omitted / csv / tsv x file / stdout, cells with line breaks and tabs), and real `python -m rbql` subprocesses rotating over all configurations; non-trivial = a successful run that agrees with RefQL',
         assumptions=['results are compared after str(); expressions are type-agnostic over string cells', 'child processes run with PYTHONWARNINGS=ignore (Python 3.12 prints its own SyntaxWarning when compiling rbql_engine.py from source)'],
         extra={'cli_configurations': [list(c[:3]) + [cfg_enc(c)] for c in CLI_CFGS]},
-        min_features={'ep_query_table': 100, 'ep_query_registry_from': 1000, 'ep_pandas_duplicate_labels': 50, 'ep_join_table_registered_name': 6, 'ep_join_table_relative_to_cwd': 6, 'ep_join_table_tilde': 6, 'ep_default_init_file': 3, 'ep_cli_option_policy_monocolumn': 1, 'ep_cli_option_init_source_file': 1, 'ep_query_custom_classes': 100, 'ep_query_csv': 100, 'ep_query_csv_comment_prefix': 100, 'ep_pandas': 100, 'ep_sqlite_to_csv': 50, 'ep_cli_inprocess_file': 300, 'ep_cli_inprocess_stdin': 300,
+        min_features={'ep_query_table': 100, 'ep_query_registry_from': 1000, 'ep_pandas_duplicate_labels': 50, 'ep_join_table_registered_name': 6, 'ep_join_table_relative_to_cwd': 6, 'ep_join_table_tilde': 6, 'ep_default_init_file': 3, 'ep_cli_tty_stderr': 3, 'ep_cli_option_policy_monocolumn': 1, 'ep_cli_option_init_source_file': 1, 'ep_query_custom_classes': 100, 'ep_query_csv': 100, 'ep_query_csv_comment_prefix': 100, 'ep_pandas': 100, 'ep_sqlite_to_csv': 50, 'ep_cli_inprocess_file': 300, 'ep_cli_inprocess_stdin': 300,
                       'ep_cli_sqlite_file': 300, 'ep_cli_sqlite_stdout': 300, 'cli_subprocess_env_mode_1': 30, 'cli_subprocess_env_mode_3': 30, 'ep_cli_subprocess_file': 30, 'ep_cli_subprocess_stdin': 30, 'cli_failures_ok': 20, 'failing_agree': 20})
 
 
